@@ -1927,6 +1927,10 @@ class tensor:
                 assert False, "Multiplicand is wrong size"
 
             y = self.data.copy()
+            if drem > 0:
+                # Multiply in floating point (integer/bool data would wrap around)
+                y = as_float_if_needed(y)
+                vector = as_float_if_needed(vector)
             for i in range(drem, 0, -1):
                 yy = np.reshape(y, (sz ** (dnew + i - 1), sz), order=self.order)
                 y = yy.dot(vector)
